@@ -330,7 +330,7 @@ func init() {
 	both := []string{"memory", "sqlite"}
 	dispStub := map[string]string{
 		"dispatcher.PushDispatcher + HTTPDeliverer + egress policy + net/http client redirect logic, queue store, config compile/wiring": "real (node assembled by app.VerifNewNode)",
-		"network / DNS":          "simulated (simnet Transport + Resolver: scripted statuses, refused, reset, response lost, hang to the deadline, redirects, DNS failure / changing answers)",
+		"network / DNS":          "simulated (simnet Transport + Resolver: scripted statuses, answers whose body is cut short, refused, reset, response lost, hang to the deadline, redirects, DNS failure / changing answers)",
 		"clock":                  "simulated; a 'hang' advances it by the configured timeout and returns the deadline error at once",
 		"goroutine interleaving": "dispatcher workers are adopted as tasks and run one at a time; interleaved at net.request / net.response points",
 		"jitter":                 "global math/rand re-seeded from the program (go:debug randseednop=0)",
@@ -347,7 +347,7 @@ func init() {
 		})
 	}
 	reg("C06", DispatchProfile{Backends: both, Interleave: true, StoreFaults: true},
-		"deliver routes (1-3 targets, concurrency 1-4, generated retry settings), per-target behaviour scripts (status 100-599 biased to boundaries, refused, reset, response lost, hang to the deadline, DNS failure, recovery after failures), worker cycles sequential and interleaved with stalls; oracle: independent classification table per delivery, settlement = recorded outcome, nack delay within [d(1-j), d(1+j)], sends per cycle <= max+1, one attempt record per delivery, and after faults stop every message ends delivered or dead; store faults: single calls of the dispatcher (batch and single settlements, attempt records) are refused by the store at drawn points - every recorded delivery outcome still reaches the store through a settlement call unless the call of last resort was itself refused (C06.settle.dropped)", 1200, 50000)
+		"deliver routes (1-3 targets, concurrency 1-4, generated retry settings), per-target behaviour scripts (status 100-599 biased to boundaries, refused, reset, response lost, hang to the deadline, an answer whose body breaks off short of its Content-Length after status line and headers, DNS failure, recovery after failures), worker cycles sequential and interleaved with stalls; oracle: independent classification table per delivery, settlement = recorded outcome, nack delay within [d(1-j), d(1+j)], sends per cycle <= max+1, one attempt record per delivery, and after faults stop every message ends delivered or dead; store faults: single calls of the dispatcher (batch and single settlements, attempt records) are refused by the store at drawn points - every recorded delivery outcome still reaches the store through a settlement call unless the call of last resort was itself refused (C06.settle.dropped)", 1200, 50000)
 	reg("C05", DispatchProfile{Backends: both, Interleave: true, Batchy: true},
 		"dispatcher part: every retry nack the dispatcher issues carries the delay its own message's attempt calls for (batched settlements included: micro-batches with messages on different attempt numbers and with jitter), so no message is offered before its own not-before time or hidden beyond it; after the faults stop every message is delivered or dead", 800, 30000)
 	reg("C16", DispatchProfile{Backends: both, Egress: true},
